@@ -353,4 +353,11 @@ def gcxsKey (t : IdxTy) (k : Int) : Except Err Int :=
 /-- proposed fix: keys and flat positions in `np.intp` -/
 def gcxsKeyFixed (k : Int) : Except Err Int := .ok (castTo intp k)
 
+/-! ### W16 index arrays at construction (proposed fix for `uint64`): `_utils._index_array` stores a `uint64`
+index array as `intp`; as written the dtype is kept -/
+
+def storedTy (fixed : Bool) (t : IdxTy) : IdxTy :=
+  if fixed && !t.signed && decide (64 ≤ t.bits) then intp else t
+def storedCoord (fixed : Bool) (t : IdxTy) (c : Int) : Int := castTo (storedTy fixed t) c
+
 end SparseV
